@@ -167,12 +167,58 @@ Definition self_toggle (t : list port) (buf : str) : option (nat * str) :=
       end
   end.
 
+Section Table.
+  (* walk_sub = walk_ports on a port's own sub-table (the recursion of walk_port below) *)
+  Variable walk_sub : port -> list nat -> str -> wres.
+  Variable rt : option oracle.
+  Variable ids : list nat.
+  Variable old_end : nat.
+
+  (* what walk_ports does with one port of the table *)
+  Definition step_port (i : nat) (q : port) (buf : str) : wres :=
+    match q with
+    | Port qn _ (Some _) =>
+        recurse0 (S (length qn))
+          (fun b =>
+             (* walk_ports_recurse: child object, 'enabled by', then the sub-table *)
+             let skip := match rt with
+                         | Some o => o_null o b || o_disabled o b
+                         | None => false
+                         end in
+             if skip then WOk [] b else walk_sub q (ids ++ [i]) b)
+          qn buf buf
+    | Port qn _ None =>
+        if has_char 35 qn then
+          match bundle_addrs (S (length qn)) qn buf with
+          | Some addrs => WOk (map (fun a => (ids ++ [i], a)) addrs) buf
+          | None => WFail
+          end
+        else
+          let b := buf ++ upto_colon qn in
+          WOk [(ids ++ [i], b)] b
+    end.
+
+  (* for(const Port &p: *base) { ...; char *tmp = old_end; while( *tmp) *tmp++=0; } *)
+  Fixpoint loop_ports (l : list port) (i : nat) (out : list report) (buf : str) {struct l} : wres :=
+    match l with
+    | [] => WOk out buf
+    | q :: r =>
+        match step_port i q buf with
+        | WFail => WFail
+        | WOk o b =>
+            if Nat.ltb (length b) old_end then WFail
+            else loop_ports r (S i) (out ++ o) (firstn old_end b)
+        end
+    end.
+End Table.
+
+Definition norm (buf : str) : str := match buf with [] => [47] | _ => buf end.
+
 Fixpoint walk_port (rt : option oracle) (ids : list nat) (p : port) (buf0 : str) {struct p} : wres :=
   match p with
   | Port _ _ None => WFail
   | Port _ _ (Some t) =>
-      let buf := match buf0 with [] => [47] | _ => buf0 end in
-      let old_end := length buf in
+      let buf := norm buf0 in                       (* if(name_buffer[0] == 0) name_buffer[0] = '/' *)
       let selfoff := match rt with Some o => o_selfoff o buf | None => false end in
       if selfoff then
         match self_toggle t buf with
@@ -180,40 +226,7 @@ Fixpoint walk_port (rt : option oracle) (ids : list nat) (p : port) (buf0 : str)
         | None => WFail
         end
       else
-      (fix loop (l : list port) (i : nat) (out : list report) (buf : str) {struct l} : wres :=
-         match l with
-         | [] => WOk out buf
-         | q :: r =>
-             let res :=
-               match q with
-               | Port qn _ (Some _) =>
-                   recurse0 (S (length qn))
-                     (fun b =>
-                        (* walk_ports_recurse: child object, 'enabled by', then the sub-table *)
-                        let skip := match rt with
-                                    | Some o => o_null o b || o_disabled o b
-                                    | None => false
-                                    end in
-                        if skip then WOk [] b else walk_port rt (ids ++ [i]) q b)
-                     qn buf buf
-               | Port qn _ None =>
-                   if has_char 35 qn then
-                     match bundle_addrs (S (length qn)) qn buf with
-                     | Some addrs => WOk (map (fun a => (ids ++ [i], a)) addrs) buf
-                     | None => WFail
-                     end
-                   else
-                     let b := buf ++ upto_colon qn in
-                     WOk [(ids ++ [i], b)] b
-               end in
-             match res with
-             | WFail => WFail
-             | WOk o b =>
-                 (* char *tmp = old_end; while( *tmp) *tmp++=0; *)
-                 if Nat.ltb (length b) old_end then WFail
-                 else loop r (S i) (out ++ o) (firstn old_end b)
-             end
-         end) t 0%nat [] buf
+        loop_ports (fun q ids' b => walk_port rt ids' q b) rt ids (length buf) t 0%nat [] buf
   end.
 
 Definition walk (rt : option oracle) (root : list port) (buf : str) : wres :=
